@@ -537,8 +537,11 @@ def gen_descs2(tier, seed, prop, focus=(), pairs_quick=90, pairs_focus=300):
                     continue
                 sched = "default" if (a_index + b_index + len(shape)) % 3 else "random"
                 pairs = (pairs_focus if shape in focus else pairs_quick) if tier == "quick" else (9000 if nP == 2 else 1500)  # 2-predecessor shapes: every pair (at most ~8000), others: a sample
-                out.append({"seed": env.seed_for(seed, prop, tier, "preempt2", shape, a_index, b_index), "mode": "preempt2", "shape": shape, "a_index": a_index,
-                            "b_index": b_index, "sched": sched, "W_extra": 1, "n": 4, "W": nP + 1, "perturb": "none", "pairs": pairs})
+                # thorough: the pairs of one (shape, a, b) are dealt out over several cases (every case stays well inside the per-case watchdog)
+                nchunks = 1 if tier == "quick" else (18 if nP == 2 else 3)
+                for ch in range(nchunks):
+                    out.append({"seed": env.seed_for(seed, prop, tier, "preempt2", shape, a_index, b_index), "mode": "preempt2", "shape": shape, "a_index": a_index,
+                                "b_index": b_index, "sched": sched, "W_extra": 1, "n": 4, "W": nP + 1, "perturb": "none", "pairs": pairs, "chunk": [ch, nchunks]})
     return out
 
 
@@ -561,8 +564,10 @@ def enumerate_pairs(desc, oracle):
         pairs = rnd.sample(allpairs, desc["pairs"])
     else:
         pairs = allpairs
+    ch, nch = desc.get("chunk") or (0, 1)
+    pairs = pairs[ch::nch]  # (the same seed in every chunk of a case: the same sample / order, dealt out)
     counters = {"preempt2_cases": 1, "preempt2_pairs_enumerated": 0, "preempt2_both_held": 0, "preempt2_ta_ran_to_end_while_tb_held": 0,
-                "preempt2_tb_blocked_by_ta": 0, "preempt2_ta_blocked_by_tb": 0, "preempt2_k_not_reached": 0, "preempt2_pairs_possible": len(allpairs)}
+                "preempt2_tb_blocked_by_ta": 0, "preempt2_ta_blocked_by_tb": 0, "preempt2_k_not_reached": 0, "preempt2_pairs_possible": len(allpairs) if ch == 0 else 0}
     points = set()
     witness = None
     raised = []
@@ -592,7 +597,7 @@ def enumerate_pairs(desc, oracle):
                 break
     res = {"status": "ok", "counters": counters, "sets": {"preempt2_point_pairs_held": sorted(points)[:400]},
            "nontrivial": counters["preempt2_ta_ran_to_end_while_tb_held"] > 0,
-           "sig": hashlib.sha1(f"preempt2|{shape}|{ai}|{bi}|{desc['sched']}".encode()).hexdigest()[:16],
+           "sig": hashlib.sha1(f"preempt2|{shape}|{ai}|{bi}|{desc['sched']}|{desc.get('chunk')}".encode()).hexdigest()[:16],
            "sample": {"desc": desc, "N1": N1, "N2": N2, "pairs": len(pairs)}}
     if bad:
         res.update(status="violation", detail=bad, mechanism="preempt2", witness=witness)
